@@ -177,7 +177,7 @@ def run_job(job, logdir):
     gates = {"draw": DrawGates(), "standard": gg.standard_gates, "weak": gg.ScaledNoiseGates(noise_scaling=1e-8), "vec": None}[job["gates"]]
     if job["gates"] == "vec":
         RecVec.TABLE = job["table"]
-    psi0 = np.zeros(2 ** n); psi0[0] = 1
+    psi0 = np.zeros(2 ** n, dtype={"c64": np.complex64, "f32": np.float32, "c128": np.complex128}.get(job.get("psi_dtype"), float)); psi0[0] = 1
     real_pool, real_cpu = multiprocessing.Pool, multiprocessing.cpu_count
     if job.get("pool") == "fake":
         multiprocessing.Pool = FakePool
